@@ -28,6 +28,31 @@ CHECKS["C16"] = ("other",
     "5/C16", "Trusts serde's derive and the data format for usize/i16/Option/Vec/enum tags, and T's own impls.",
     "writer/reader table agreement read from the MIR of the derived impls + attribute and type-closure rules")
 
+E2NOTE = ("Trusted: rustc front end to MIR (opt-level 0), the exporter/interpreter in /verif, hand-written std models (Option/Result/Vec/NonZero/"
+          "Iterator::any), axioms = consequences of J0-J7, assumption V (valid ids). Induction over call histories is the written argument of DESIGN 2.")
+E2TECH = "path-sensitive abstract interpretation of rustc MIR over a shape domain (lazily materialised individuals, integrity constraints J, 3-valued ancestor predicate)"
+CHECKS["C01"] = ("proof",
+    "Inductive invariant: from every abstract pre-state consistent with J and V (all aliasing/liveness cases, neighbourhood materialised on demand, no "
+    "bound on arena size) each entry point re-establishes every instance of J0/J1/J2 that mentions a written field, at every exit incl. panics. "
+    "Entries so far: detach, the four checked inserts, append_value, new_node (remove/remove_subtree: see level_note).",
+    "5/C01", E2NOTE + " remove/remove_subtree are not yet interpreted (loop summaries in progress): their J-preservation is not claimed by this check yet.", E2TECH)
+CHECKS["C02"] = ("proof",
+    "J3 preserved: every changed parent edge leads into a pre-state ancestor chain free of re-parented nodes (ancestor facts from the summarised "
+    "ancestors().any loop or from J); call graph acyclic; every natural loop in reachable code is accounted for with a termination argument.",
+    "5/C02", E2NOTE + " Sibling-order acyclicity follows from the model equivalence of C03. Iterator finiteness is the written argument from C09's step tables + J3.", E2TECH + " + call-graph/loop inventory rules")
+CHECKS["C03"] = ("proof",
+    "For every pre-state case where the request is possible, the implementation returns Ok and its post-heap equals the reference model gap/place on every "
+    "field either touches (extensional equality incl. frame); no-op re-inserts are ordinary cases; append_value's arena part is new_node's by construction.",
+    "5/C03", E2NOTE, E2TECH + " + extensional comparison with a reference model")
+CHECKS["C05"] = ("proof",
+    "Exit of each checked insert compared with the specification table (self / removed / ancestor / possible) in every case, on dev and release MIR; refusals "
+    "(Err or panic) must leave an empty overlay; no panic reachable in the possible row (all debug assertions and internal expects are evaluated on the symbolic heap); "
+    "unchecked forms are exactly checked_* + expect (E1) and are interpreted too in the thorough tier.",
+    "5/C05", E2NOTE, E2TECH + " + wrapper rule")
+CHECKS["C12"] = ("proof",
+    "Refusal of every insert/append_value with a removed id with empty overlay (incl. len and free list), J5/J0 re-checked at every exit, recycled/new node starts with no links.",
+    "5/C12", E2NOTE + " J5 for remove/remove_subtree exits is pending the loop summaries and is not claimed yet.", E2TECH)
+
 PENDING = "check under construction in this build round (DESIGN.md section 10); not claimed until its engine part exists"
 
 NOT_APPLICABLE = {}
@@ -70,7 +95,7 @@ def main():
              "kind_free_text": "rustc_private driver exporting ADTs, impls and MIR with resolved callees as JSON, per profile x feature set"},
             {"name": "E1 rules", "path": "vlib/rules.py", "serves_properties": props,
              "kind_free_text": "call graph, CFG/dominators, field-site index, origin (value-flow) rules over the exported program"},
-            {"name": "E2 absint", "path": "vlib/absint", "serves_properties": [],
+            {"name": "E2 absint", "path": "vlib/absint", "serves_properties": ["C01", "C02", "C03", "C05", "C12"],
              "kind_free_text": "path-sensitive abstract interpreter over MIR with a shape domain (lazily materialised individuals, integrity constraints J)"},
             {"name": "E3 witness", "path": "witness", "serves_properties": ["C18", "C13"],
              "kind_free_text": "compile_fail,E0xxx doc-tests with compiling twins + generic witness functions (cargo +nightly test --doc)"},
